@@ -74,6 +74,30 @@ Proof.
 Qed.
 Print Assumptions C06_nan_consistent.
 
+(* a cell with no target within max_distance is NaN in all three outputs *)
+Theorem C06_nan_beyond_max_distance :
+  forall key tie_up R M xc yc values img r c,
+  let g := process key tie_up R M xc yc values img in
+  let h := lenZ img in let w := lenZ (nthZ [] img 0) in
+  coords_ok xc w -> coords_ok yc h -> key 0 0 = 0 -> ele (EFin 0) M = true ->
+  0 <= r < h -> 0 <= c < w ->
+  (forall tr tc d, is_target values (cellv img tr tc) = true ->
+                   dist2 key xc yc tr tc r c = Some d -> ele (EFin d) M = false) ->
+  prox_of g r c = LUnset /\ index_of g r c = None /\ alloc_of img g r c = XNaN.
+Proof.
+  intros key tie_up R M xc yc values img r c g h w Hx Hy Hk HM Hr Hc Hfar.
+  assert (H1 : prox_of g r c = LUnset).
+  { destruct (prox_of g r c) as [|e] eqn:Ep; auto.
+    destruct (named_target key tie_up R M xc yc values img Hx Hy Hk HM r c e Hr Hc Ep)
+      as (tr & tc & d & _ & HT & Hd & _ & Hm).
+    rewrite (Hfar tr tc d HT Hd) in Hm. discriminate. }
+  assert (H2 : index_of g r c = None).
+  { pose proof (process_rows key tie_up R M xc yc values img r c Hr Hc) as H. fold g in H.
+    rewrite H1 in H. exact H. }
+  unfold alloc_of. rewrite H2. auto.
+Qed.
+Print Assumptions C06_nan_beyond_max_distance.
+
 (* with at least one target and unbounded max_distance (R = M = +inf) no cell is NaN - in any of the
    three outputs (by C06_nan_consistent) *)
 Theorem C06_no_nan_unbounded :
